@@ -8,7 +8,8 @@ def label_maps(n, rng):
     rng.shuffle(perm)
     out = [
         ("identity", list(range(1, n + 1))),
-        ("permuted-ints", [perm[i] for i in range(n)]),
+        ("permuted-ints", [perm[i] for i in range(n)]),          # 0..n-1 permuted: includes the falsy label 0
+        ("zero-based-ints", list(range(n))),
         ("negative-ints", [-(3 * i + 2) for i in range(n)]),
         ("strings", ["node_%s" % "zyxwvutsrqponm"[i % 14] * (1 + i // 14) for i in range(n)]),
         ("tuples", [(i % 2, "t", n - i) for i in range(n)]),
